@@ -70,6 +70,9 @@ def events():
     for fid in GROW:
         evs.append(("grow_modified", fid))
         evs.append(("grow_silent", fid))
+    # a tracked file renamed to another matching name of its channel (both names match the grammar)
+    for a, b in (("A1", "A2"), ("A2", "A3"), ("A1", "A3"), ("B1", "B2")):
+        evs.append(("move_to", a, b))
     evs += [("rescan",), ("add_all_sorted",), ("add_all_unsorted",), ("modify_all",), ("remove_untracked_on_disk",)]
     return evs
 
@@ -217,6 +220,10 @@ class World:
         elif kind == "move_out":
             if os.path.exists(p):
                 os.rename(p, p + ".moved")
+        elif kind == "move_to":
+            pdst = fpath(top, ev[2])
+            if os.path.exists(p) and not os.path.exists(pdst):
+                os.rename(p, pdst)
         on_disk_at_dispatch = {fpath(top, f) for f in FID if os.path.exists(fpath(top, f))}
         os.remove, os.rmdir = remove, rmdir
         exc = None
@@ -235,6 +242,9 @@ class World:
                 h.dispatch(FileMovedEvent(fpath(top, fid, tmp=True), p))
             elif kind == "move_out":
                 h.dispatch(FileMovedEvent(p, p + ".moved"))
+            elif kind == "move_to":
+                newly_reported = [fpath(top, ev[2])]
+                h.dispatch(FileMovedEvent(p, fpath(top, ev[2])))
             elif kind in ("add_all_sorted", "add_all_unsorted"):
                 paths = [fpath(top, f) for f in FID if os.path.exists(fpath(top, f))]
                 if kind == "add_all_unsorted":
@@ -473,7 +483,7 @@ def main(tier):
         rule=("explicit-state BFS over the real DigitalRFRingbufferHandler on real files: 2 channels (RF chA with 3 files, metadata "
               "chB/metadata with 2 files, distinct sizes) plus a properties file and a tmp. file per channel that must survive; "
               "events per file {created with/without the file appearing, deleted with/without the file disappearing, vanish "
-              "without event, tmp->final move, move to a non-matching name, modified, grow+modified, silent grow} and batch "
+              "without event, tmp->final move, move to a non-matching name, rename to another matching name, modified, grow+modified, silent grow} and batch "
               "{re-scan as after an observer restart, add_files sorted/unsorted, modify_files, remove_files}; limit configurations "
               "size in {None, sum of largest per channel, all-1, all} x count in {None,1,2} x duration in {None, one spacing, all}. "
               "Invariants are evaluated on every transition; os.remove/os.rmdir are intercepted with the tracked set at that "
